@@ -2516,7 +2516,7 @@ class RxExec:
         if vec.busy:
             self.ub(n, "a vector is changed while a range-for iterates over it (its iterators are invalidated)")
 
-    def construct(self, ty, vals, n, value_init=True):
+    def construct(self, ty, vals, n, value_init=True, aggregate=False):
         t = rx_bare(ty)
         if t in RX_ITY:
             if not vals:
@@ -2525,7 +2525,8 @@ class RxExec:
                 return self.conv(vals[0], t)
             self.und(n, "construction of %s not modelled" % t)
         head, args = rx_targs(t)
-        if len(vals) == 1 and type(vals[0]) in (RxVec, RxArr, RxBits, RxObj) and head != "std::pair":
+        if len(vals) == 1 and type(vals[0]) in (RxVec, RxArr, RxBits, RxObj) and head != "std::pair" \
+                and not (aggregate and type(vals[0]) is RxObj and rx_bare(vals[0].ty) != t and t.startswith("tlx::")):
             return rx_copy(vals[0])
         if head == "std::pair" and args and len(args) == 2:
             if not vals:
@@ -2553,7 +2554,28 @@ class RxExec:
             self.und(n, "construction of a vector not modelled")
         if not vals:
             return rx_default(t, value_init)
+        if aggregate and t.startswith("tlx::"):
+            return self.aggregate(t, vals, n)
         self.und(n, "construction of %s from %d arguments not modelled" % (t, len(vals)))
+
+    def aggregate(self, t, vals, n):
+        """T{a, b, ...} for a plain struct of the library (an InitListExpr of class type is aggregate initialisation): one
+        initialiser per field, in the order of declaration; the record must be known with exactly these fields"""
+        recs = [r for r in self.tu.records if r.get("full") == t]
+        if len(recs) != 1 or recs[0].get("bases"):
+            self.und(n, "aggregate initialisation of %s: record not known or with base classes" % t)
+        fields = recs[0].get("fields", [])
+        if len(fields) != len(vals) or any(f.get("name") is None or f.get("ty") is None or rx_is_ref(f["ty"]) for f in fields):
+            self.und(n, "aggregate initialisation of %s: %d initialisers for %d fields" % (t, len(vals), len(fields)))
+        o = RxObj(t)
+        for f, v in zip(fields, vals):
+            if rx_bare(f["ty"]) in RX_ITY:
+                if not isinstance(v, (int, bool)):
+                    self.und(n, "field %s of integer type initialised from something else" % f["name"])
+                o.fields[f["name"]] = self.conv(v, f["ty"])
+            else:
+                o.fields[f["name"]] = self.construct(f["ty"], [v], n)
+        return o
 
     # ---- expressions
     def ev(self, e, fr):
@@ -2652,7 +2674,7 @@ class RxExec:
                 self.und(e, "construction with default arguments not modelled")
             return self.construct(e.get("ty"), [self.ev(a, fr) for a in args], e, value_init=(k != "CXXConstructExpr"))
         if k == "InitListExpr":
-            return self.construct(e.get("ty"), [self.ev(a, fr) for a in kids(e) if a is not None], e)
+            return self.construct(e.get("ty"), [self.ev(a, fr) for a in kids(e) if a is not None], e, aggregate=True)
         if k == "CXXScalarValueInitExpr":
             return rx_default(e.get("ty"), True)
         if k == "LambdaExpr":
